@@ -246,7 +246,7 @@ Print Assumptions C04_session_spec.
 (* SOURCE TIE — the formulas regenerated from /repo on this run (Gen/C04.v, written by translate/run.py +
    translate/gen_c04.py from io/file_buffers.py, io/bam.py, io/delimited_buffers.py, io/buffers/sam.py) are the ones the
    theorems above are about: (1) selection, compaction, concatenation and rest-of-line RE-ASSEMBLED from the generated
-   formulas are the model's getitem / make_contiguous / concatenate / rest_of_line; (2) BAM uses the same arithmetic;
+   formulas are the model's getitem / make_contiguous / concatenate / rest_of_line; (2) BAM: a write gathers the selected records' bytes and leaves the extractor unchanged (the text extractors compact in place);
    (3) the table arithmetic of _get_buffer_extractor, including WHICH `ends` the entry ends are taken from (the repair of
    the CRLF defect = the model variant in force); (4) the index arithmetic of SAMBuffer.join_fields. *)
 Theorem C04_source_tie :
@@ -267,10 +267,11 @@ Theorem C04_source_tie :
   /\ (forall sel x,
         gen_bam_getitem (fun m => takeA [] m sel) (fun l => takeA 0 l sel) (x_data x) (x_es x) (x_ee x)
         = (x_data (getitem sel x), x_es (getitem sel x), x_ee (getitem sel x), x_contig (getitem sel x)))
-  /\ (forall s e ns, gen_bam_mc_len s e = m_rec_len s e /\ gen_bam_mc_new_starts ns = m_new_starts ns
-        /\ gen_bam_mc_entry_starts ns = removelast ns /\ gen_bam_mc_entry_ends ns = tl ns)
-  /\ (forall x, Forall (fun r => r = []) (x_fs x) -> List.length (x_fs x) = List.length (x_es x) ->
-        List.length (x_ee x) = List.length (x_es x) -> gen_bam_make_contiguous x = make_contiguous x)
+  /\ (forall s e ns, gen_bam_mc_len s e = m_rec_len s e /\ gen_bam_gather_view ns ns = (ns, ns))
+  /\ (forall x, gen_bam_gather x = x_data (make_contiguous x))
+  /\ (forall v x, x_contig x = false -> write v FBam (SLazy x []) = Some (gen_bam_gather x))
+  /\ gen_bam_mc_inplace = inplace_compaction FBam /\ (forall s, touch FBam s = s)
+  /\ gen_mc_inplace = inplace_compaction (FDelim 0)
   /\ (forall d, gen_delim_field_start d = m_delim_start d /\ gen_delim_entry_end d = m_delim_entry_end d)
   /\ gen_delim_entry_ends_before_cr = v_crlf current
   /\ (forall l r n, gen_sam_cell_ends l = m_sam_cell_ends l /\ gen_sam_drop_cell r n = m_sam_drop_cell r n
@@ -279,7 +280,7 @@ Proof.
   Ltac tie := first [apply b_mc_len|apply b_mc_new_starts|apply b_mc_offset|apply b_mc_offset_operand|apply b_mc_entry_starts
     |apply b_mc_entry_ends|apply b_mc_field_start|apply b_mc_ravel_view|apply b_cat_offsets|apply b_cat_field_start
     |apply b_cat_entry_start|apply b_cat_entry_end|apply b_range_len|apply b_range_len_sep
-    |apply b_bam_mc_len|apply b_bam_mc_new_starts|apply b_bam_mc_entry_starts|apply b_bam_mc_entry_ends
+    |apply b_bam_mc_len|apply b_bam_gather_view
     |apply b_delim_field_start|apply b_delim_entry_end
     |apply b_sam_cell_ends|apply b_sam_drop_cell|apply b_sam_tag_first|apply b_sam_tag_step|apply b_sam_tag_empty].
   split; [exact b_tte_getitem|]. split; [exact b_make_contiguous|]. split; [exact b_concatenate|].
@@ -287,7 +288,8 @@ Proof.
   split; [intros s e ns o fs v; repeat (split; [tie|]); tie|].
   split; [exact b_cat_contiguous|]. split; [exact b_bam_getitem|].
   split; [intros s e ns; repeat (split; [tie|]); tie|].
-  split; [exact b_bam_make_contiguous|].
+  split; [exact b_bam_gather|]. split; [exact b_bam_write|]. split; [exact b_bam_mc_inplace|]. split; [exact b_bam_touch|].
+  split; [exact (proj1 b_mc_inplace)|].
   split; [intros d; split; tie|].
   split; [exact b_delim_entry_ends_before_cr|].
   intros l r n; repeat (split; [tie|]); tie.
